@@ -47,6 +47,15 @@ type SrvCase struct {
 	Data    []ChunkSpec `json:"data"`              // content per object (chunk: the chunk; index: seed of a generated index)
 	Reqs    []SrvReq    `json:"reqs"`              // started in this order, each after the previous one's upstream request arrived
 	Release []int       `json:"release,omitempty"` // order in which the held upstream requests are answered (indexes into Reqs; rest in order)
+	// Put (chunk server only): the server runs with -w and, before the overlapping reads, a chunk the upstream does not
+	// have is uploaded; while the upload's upstream PUT is held a GET for the same ID is made
+	Put *SrvPut `json:"put,omitempty"`
+}
+
+type SrvPut struct {
+	Data     ChunkSpec `json:"data"`
+	Bad      bool      `json:"bad,omitempty"`       // the body is a well-formed transfer form of OTHER data (accepted by default: uploads are not verified)
+	GetFirst bool      `json:"get_first,omitempty"` // the GET's upstream request (if it makes one) is answered before the upload's
 }
 
 func genSrv(t *rapid.T) SrvCase {
@@ -76,6 +85,10 @@ func genSrv(t *rapid.T) SrvCase {
 		c.Reqs = append(c.Reqs, SrvReq{Method: m, Obj: order[i]})
 	}
 	c.Release = rapid.Permutation([]int{0, 1, 2, 3}).Draw(t, "release")
+	if c.Server == "chunk" && rapid.IntRange(0, 2).Draw(t, "put") == 0 {
+		c.Put = &SrvPut{Data: ChunkSpec{Kind: rapid.SampledFrom([]string{"rand", "text"}).Draw(t, "pkind"), Len: rapid.IntRange(1, 3000).Draw(t, "plen"), Seed: rapid.Uint64().Draw(t, "pseed")},
+			Bad: rapid.Bool().Draw(t, "pbad"), GetFirst: rapid.Bool().Draw(t, "pgetfirst")}
+	}
 	return c
 }
 
@@ -94,6 +107,10 @@ type heldReq struct {
 }
 
 func (g *gateUpstream) ServeHTTP(w http.ResponseWriter, r *http.Request) {
+	var put []byte
+	if r.Method == "PUT" {
+		put, _ = io.ReadAll(r.Body)
+	}
 	h := &heldReq{method: r.Method, path: r.URL.Path, release: make(chan struct{})}
 	g.mu.Lock()
 	g.arrived = append(g.arrived, h)
@@ -102,6 +119,13 @@ func (g *gateUpstream) ServeHTTP(w http.ResponseWriter, r *http.Request) {
 	select {
 	case <-h.release:
 	case <-r.Context().Done():
+		return
+	}
+	if r.Method == "PUT" {
+		g.mu.Lock()
+		g.objs[r.URL.Path] = put
+		g.mu.Unlock()
+		w.WriteHeader(http.StatusOK)
 		return
 	}
 	g.mu.Lock()
@@ -278,7 +302,13 @@ func runSrvProc(c SrvCase) (o hx.Outcome) {
 	case "stdout":
 		args = append(args, "--log", "-")
 	}
+	if c.Server != "chunk" {
+		c.Put = nil
+	}
 	if c.Server == "chunk" {
+		if c.Put != nil {
+			args = append(args, "-w")
+		}
 		if c.Unc {
 			args = append(args, "-u")
 		}
@@ -345,6 +375,90 @@ func runSrvProc(c SrvCase) (o hx.Outcome) {
 	defer cancel()
 	client := &http.Client{Transport: &http.Transport{DisableKeepAlives: true, Proxy: nil}}
 	defer client.CloseIdleConnections()
+
+	// ---- upload phase: a GET for an ID whose upload is in flight
+	base := 0 // upstream requests seen before the overlapping reads start
+	if c.Put != nil {
+		plain := append(c.Put.Data.bytes(), 0xfe)
+		pid := chunkID(plain)
+		id := pid.String()
+		upPath, clPath := "/up/"+id[:4]+"/"+id+".cacnk", "/"+id[:4]+"/"+id
+		if !c.Unc {
+			clPath += ".cacnk"
+		}
+		payload := plain
+		if c.Put.Bad {
+			payload = append(append([]byte(nil), plain...), 0x01) // other data under this ID
+		}
+		body := wire(payload, c.Unc)
+		do := func(m string, b []byte) (a answer) {
+			var rd io.Reader
+			if b != nil {
+				rd = bytes.NewReader(b)
+			}
+			req, _ := http.NewRequestWithContext(ctx, m, "http://"+addr+clPath, rd)
+			resp, err := client.Do(req)
+			if err != nil {
+				a.err = err
+				return a
+			}
+			defer resp.Body.Close()
+			a.status = resp.StatusCode
+			a.body, a.err = io.ReadAll(resp.Body)
+			return a
+		}
+		var putA, getA answer
+		var pw sync.WaitGroup
+		pw.Add(1)
+		go func() { defer pw.Done(); putA = do("PUT", body) }()
+		if !g.waitArrivals(1, 10*time.Second) {
+			cancel()
+			pw.Wait()
+			return inconclusive("upload-did-not-reach-upstream")
+		}
+		pw.Add(1)
+		go func() { defer pw.Done(); getA = do("GET", nil) }()
+		gotUp := g.waitArrivals(2, 1500*time.Millisecond) // a server that answers the read from the upload in flight asks nobody
+		g.mu.Lock()
+		held := append([]*heldReq(nil), g.arrived...)
+		g.mu.Unlock()
+		if gotUp && c.Put.GetFirst {
+			close(held[1].release)
+			time.Sleep(300 * time.Microsecond)
+			close(held[0].release)
+		} else {
+			close(held[0].release)
+			if gotUp {
+				time.Sleep(300 * time.Microsecond)
+				close(held[1].release)
+			}
+		}
+		pw.Wait()
+		g.mu.Lock()
+		for _, h := range g.arrived[len(held):] { // retries / late requests of this phase
+			close(h.release)
+		}
+		base = len(g.arrived)
+		stored := g.objs[upPath]
+		g.mu.Unlock()
+		o.Class("srvproc:upload", map[bool]string{true: "srvproc:upload:mislabelled", false: "srvproc:upload:valid"}[c.Put.Bad])
+		if gotUp {
+			o.Class("srvproc:upload:read-went-upstream")
+		}
+		whereP := fmt.Sprintf("desync %s; PUT %s (%d bytes, mislabelled=%v) answered %d, GET of the same ID while the upload was held upstream answered %d with %d bytes (own upstream request: %v, answered first: %v); server output: %q",
+			strings.Join(args, " "), clPath, len(body), c.Put.Bad, putA.status, getA.status, len(getA.body), gotUp, c.Put.GetFirst, clipS(out.String()))
+		if getA.err == nil && getA.status == 200 && (c.Verify || !c.Put.Bad) {
+			got, derr := unwire(getA.body, c.Unc)
+			if derr != nil || !bytes.Equal(got, plain) {
+				o.Fail("C14:srvproc:chunk:get:wrong-data-during-upload", "a server that verifies what it reads (or whose upload was right) delivered 200 with bytes that are not chunk %s — %s", id[:8], whereP)
+			}
+		}
+		if putA.err == nil && putA.status == 200 && !c.Put.Bad {
+			if sp, derr := zDecompress(stored); derr != nil || !bytes.Equal(sp, plain) {
+				o.Fail(sig("srvproc:chunk:put", "stored", "not-stored"), "upload acknowledged but the upstream store does not hold the chunk — %s", whereP)
+			}
+		}
+	}
 	for i, rq := range c.Reqs {
 		ob := objs[rq.Obj%len(objs)]
 		m := "GET"
@@ -365,14 +479,14 @@ func runSrvProc(c SrvCase) (o hx.Outcome) {
 			answers[i].body, answers[i].err = io.ReadAll(resp.Body)
 		}(i, m, ob.clPath)
 		started = i + 1
-		if !g.waitArrivals(i+1, 20*time.Second) {
+		if !g.waitArrivals(base+i+1, 20*time.Second) {
 			// the server answered without asking upstream, or is stuck: let everything go and judge what came back
 			break
 		}
 	}
 	c.Reqs = c.Reqs[:started]
 	g.mu.Lock()
-	held := append([]*heldReq(nil), g.arrived...)
+	held := append([]*heldReq(nil), g.arrived[base:]...)
 	g.mu.Unlock()
 	overlapped := len(held) == len(c.Reqs)
 	released := map[int]bool{}
@@ -400,7 +514,7 @@ func runSrvProc(c SrvCase) (o hx.Outcome) {
 				return
 			case <-time.After(2 * time.Millisecond):
 				g.mu.Lock()
-				for _, h := range g.arrived[len(held):] {
+				for _, h := range g.arrived[base+len(held):] {
 					select {
 					case <-h.release:
 					default:
